@@ -18,7 +18,7 @@ MOD = {
 
 class Harness:
     def __init__(self, file, fn, props, tier="quick", cost=5, what="", bounds="", timeout=None,
-                 expect_fail=False, real_map_replay=False, quick=None, required=()):
+                 expect_fail=False, real_map_replay=False, quick=None, required=(), allowed_fail=None):
         self.file = file
         self.fn = fn
         self.name = MOD[file] + "::" + fn
@@ -32,6 +32,7 @@ class Harness:
         self.bounds = bounds
         self.expect_fail = expect_fail
         self.real_map_replay = real_map_replay
+        self.allowed_fail = allowed_fail  # regex: documented panics this harness is EXPECTED to hit (ignored as failures, must occur)
         self.required = tuple(required)   # cover! messages that must be SATISFIED (besides 'end ... reached')
 
 H = []
@@ -130,6 +131,80 @@ add("unsync_cache.rs", "k1_is_expired_entry_reads_the_entrys_own_nodes", {"C05",
 add("common.rs", "raw_instant_layout_matches_std", {"C05", "C06"}, "quick", 2, "harness assumption: layout of std::time::Instant", "all instants")
 add("unsync_cache.rs", "unsync_twin_must_fail", {"C01", "C03", "C04", "C05", "C06", "C07", "C08", "C10", "C12", "C13", "C15", "C16"}, "quick", 60,
     "vacuity twin of the unsync family", "n=2", expect_fail=True)
+
+# ------------------------------------------------------------------ C17: configuration
+add("builder_utils.rs", "within_limit_never_panics", {"C17", "C08"}, "quick", 2, "ensure_expirations_or_panic returns for every ttl/tti <= 1000 y", "all Option<Duration>", required=("exactly 1000 years accepted",))
+add("builder_utils.rs", "beyond_limit_always_panics", {"C17", "C08"}, "quick", 2, "ensure_expirations_or_panic never returns when a duration exceeds 1000 y (from +1 ns)", "all Option<Duration>",
+    allowed_fail=r"time_to_(live|idle) is longer than 1000 years")
+add("unsync_builder.rs", "policy_reports_exactly_the_knobs", {"C17"}, "quick", 30, "unsync builder: every knob combination -> policy() and private fields", "all capacities, durations <= 1000 y, initial capacities")
+add("unsync_builder.rs", "builder_new_equals_max_capacity_and_initial_capacity_is_inert", {"C17"}, "quick", 30, "CacheBuilder::new(n) == default().max_capacity(n); initial_capacity inert", "all n, all initial capacities")
+add("unsync_builder.rs", "weigher_knob", {"C17"}, "quick", 30, "no weigher => weight 1", "all keys/values")
+add("unsync_cache.rs", "c17_unbounded_never_evicts_for_size", {"C17", "C03"}, "quick", 30, "no max_capacity => has_enough_capacity always, weights_to_evict == 0", "all counter values")
+add("unsync_cache.rs", "c04_capacity_arithmetic", {"C04", "C03", "C12"}, "quick", 30, "capacity predicates for all (weighted_size, weight, capacity)", "weighted_size < 2^63")
+
+# ------------------------------------------------------------------ S: sync cache, function level, container models
+def _sync():
+    src = open(os.path.join(os.path.dirname(os.path.dirname(os.path.abspath(__file__))), "kani", "sync_base_cache.rs")).read()
+    bs = "sync cache at function level; dashmap/crossbeam-channel replaced by single-threaded models; n<=2 admitted residents (keys concrete), concrete capacity/weights/time class; values, sketch, read timestamps symbolic; housekeeper excluded (no inline maintenance)"
+    for m in _re.finditer(r"^sh!\((\w+), ([sl]_\w+)\(&sc\((.*)\);", src, _re.M):
+        name, fn, tail = m.groups()
+        mm = _re.search(r"(true|false), (true|false), (true|false), \d\)(.*)\)$", tail)
+        ttl, tti, va = mm.group(1) == "true", mm.group(2) == "true", mm.group(3) == "true"
+        rest = mm.group(4)
+        props = {"C08"}
+        prim = set()
+        if fn == "s_lookup":
+            which = rest.split(",")[-1].strip()
+            props |= {"C01", "C03", "C14", "C15"}
+            if which == "0": prim |= {"C15", "C01"}
+            if which == "1": prim |= {"C01", "C14", "C03"}
+            if which == "2": props |= {"C16"}; prim |= {"C16", "C01"}
+            if ttl: props |= {"C05"}; prim |= {"C05"}
+            if tti: props |= {"C06"}; prim |= {"C06"}
+            if va: props |= {"C07"}; prim |= {"C07"}
+        elif fn == "s_insert":
+            props |= {"C01", "C05", "C06", "C10", "C14"}; prim |= {"C01", "C05", "C06"}
+        elif fn == "s_invalidate_all":
+            props |= {"C07", "C01"}; prim |= {"C07"}
+        elif fn == "l_upsert_update":
+            props |= {"C10", "C03", "C04", "C06", "C05", "C12"}; prim |= {"C10", "C06", "C12", "C03", "C04", "C05"}
+        elif fn == "l_upsert_admit_fits":
+            props |= {"C10", "C03", "C04", "C12", "C05"}; prim |= {"C10", "C03", "C04"}
+        elif fn == "l_upsert_admission":
+            props |= {"C13", "C12", "C10", "C04"}; prim |= {"C13", "C12"}
+        elif fn == "l_evict_lru_exact":
+            props |= {"C12", "C04", "C10", "C11"}; prim |= {"C12", "C04"}
+        elif fn == "l_purge_one":
+            props |= {"C10", "C03", "C05", "C06", "C07"}; prim |= {"C10", "C05" if ttl else "C06" if tti else "C07"}
+        elif fn == "l_remove":
+            props |= {"C07", "C10", "C11"}; prim |= {"C07", "C10", "C11"}
+        elif fn == "s_handle_upsert":
+            props |= {"C03", "C04", "C10", "C12", "C13", "C06", "C05", "C01"}
+            prim |= {"C10", "C03", "C04"}
+            if "new" in name: prim |= {"C13", "C12"}
+            else: prim |= {"C06", "C12"}
+        elif fn == "s_apply_reads":
+            props |= {"C06", "C12", "C14", "C03", "C07", "C15"}; prim |= {"C06", "C12", "C14"}
+        elif fn == "s_handle_remove":
+            props |= {"C07", "C10", "C11", "C03"}; prim |= {"C07", "C10"}
+        elif fn == "s_evict_lru":
+            props |= {"C04", "C12", "C10"}; prim |= {"C04", "C12"}
+        elif fn == "s_evict_expired":
+            props |= {"C05", "C06", "C07", "C10", "C03"}; prim |= {"C10", "C05" if ttl else "C06" if tti else "C07"}
+        if name in ("s_get0_live", "l_upsert_update_n2_lru_ttl", "l_upsert_admission_n2", "l_remove_n2_mru", "l_evict_lru_exact_n2", "l_purge_one_ttl_deadline", "s_apply_reads_hit0"):
+            prim |= {"C08"}
+        add("sync_base_cache.rs", name, props, "quick", 60, f"sync {fn[2:]}{rest} [{name}]", bs, quick=prim,
+            required=("admitted over victims", "newcomer rejected") if name.startswith("l_upsert_admission") else ())
+_sync()
+add("sync_base_cache.rs", "s_k1_is_expired_wo", {"C05", "C07", "C08"}, "quick", 5, "sync is_expired_entry_wo <=> lm < valid_after or lm + ttl <= now", "all instants/durations symbolic, ns resolution")
+add("sync_base_cache.rs", "s_k1_is_expired_ao", {"C06", "C07", "C08"}, "quick", 5, "sync is_expired_entry_ao <=> la < valid_after or la + tti <= now", "all instants/durations symbolic, ns resolution")
+add("sync_base_cache.rs", "sync_twin_must_fail", {"C01", "C03", "C04", "C05", "C06", "C07", "C10", "C12", "C13", "C15", "C16"}, "quick", 30, "vacuity twin of the sync family", "n=2", expect_fail=True)
+
+# ------------------------------------------------------------------ C09: housekeeper / back-pressure
+add("housekeeper.rs", "try_sync_releases_the_flag_on_every_path", {"C09", "C08"}, "quick", 10, "Housekeeper::try_sync flag discipline for an arbitrary InnerSync", "all clock readings; flag free/busy")
+add("housekeeper.rs", "full_queue_always_triggers_maintenance", {"C09", "C08"}, "quick", 10, "should_apply_* true whenever the queue is at its flush point (both housekeeping regimes); queue sizes >= flush points", "all queue lengths and clock readings")
+add("sync_cache.rs", "schedule_write_op_on_a_full_queue_runs_maintenance_and_returns", {"C09", "C08"}, "quick", 60, "schedule_write_op with a FULL queue: runs maintenance once, enqueues, never sleeps", "model queue capacity 2; draining InnerSync")
+add("sync_cache.rs", "schedule_write_op_with_room_enqueues_once", {"C09", "C08"}, "quick", 60, "schedule_write_op with room: flag free or busy", "model queue capacity 2")
 
 PROPS = {}
 def plan(prop, tier):
